@@ -11,8 +11,13 @@
 //!    (request kinds, tool_started/ended), end reason.
 //! Independent oracle (no model): on the recorded bodies, frames and marker files — answered exactly once
 //! by call id, in output order, in the very next request (clean scripts: against the calls the generator
-//! emitted); barred tools leave no marker and no run frame; <= 32 tool calls; every sent body passes the
-//! real validator; stateless inputs are prefix-ordered; a marker is written at most once per call id.
+//! emitted); barred tools leave no marker and no run frame; <= 32 tool calls (refused ones count); every sent body
+//! satisfies the CreateResponseBody schema as judged by the harness's OWN JSON-Schema interpreter over the schema
+//! documents (../c16_schema.rs — not by rip_openresponses' validator, whose verdict is only compared); stateless
+//! inputs are prefix-ordered; a marker is written at most once per call id; calls of the last round stay unanswered
+//! only for a named reason (O7); each output belongs to the call it is filed under (O8).
+//! The validity handed to the model (`valids`) is the judge's verdict too, and check_case additionally demands that
+//! the model's own `items_ok` (the schema's value limits on input items) equals that verdict on every follow-up.
 use rip_provider_openresponses::{ParsedEvent, ParsedEventKind, ToolChoiceParam};
 use rv::provider::{Scripted, ScriptedProvider};
 use rv::*;
